@@ -379,6 +379,11 @@ send_early_response(RegP *p, ByteBuffer *hdrbuf, RPResponse code)
     const int rc = parse_header(&frame, hdrbuf->data, hdrbuf->used);
 
     if (rc >= 0) {
+        if (regp_is_request(&frame) == false) {
+            /* Responses and meta messages that exhibit a problem are not
+             * answered; and there is no response type to do it with. */
+            return 0;
+        }
         return send_resp_0(p, &frame, code, MSEM_8BIT);
     }
 
